@@ -133,6 +133,7 @@ def run(db, cx):
                       "that is below threshold")
 
     unit_vectors(db, cx)
+    position_on_segment(db, cx)
 
 
 UNIT_CTORS = {C + "make_unit_vector", C + "from_spherical", C + "rotate", C + "IsotropicDistribution::operator()"}
@@ -211,3 +212,84 @@ def unit_vectors(db, cx):
                       why="rotate(v, axis) builds an orthonormal frame from `axis` only if it is a unit "
                           "vector (debug assertion only): with a shorter axis the photon leaves the "
                           "Cerenkov cone and its polarisation is no longer perpendicular to it")
+
+
+def position_on_segment(db, cx):
+    """C20.5: the emission point is a convex combination of the parent's step points by
+    construction: position = pre.pos, then axpy(u, post.pos - pre.pos, &position) with u a
+    canonical sample in [0, 1) or the literal 1.  (The step *length* is the true path length and
+    may exceed |post - pre| on curved steps, so it may not be used to place the photon.)"""
+    import re
+    gens = [f for n_ in db.find(r"^celeritas::optical::(Cerenkov|Scintillation)Generator::operator\(\)$")
+            for f in db.get(n_)]
+    TI = O + "TrackInitializer::position"
+    POS = "F:" + O + "GeneratorStepData::pos"
+    for f in gens:
+        cls = f.name.rsplit("::", 1)[0]
+        ws = [(b, i, ev) for (b, i, ev) in f.events("write") if path_leaf(ev.get("path")) == TI]
+        ok_init = bool(ws) and all(POS in w.get("refs", []) and "E:celeritas::StepPoint::pre" in w.get("refs", [])
+                                   and not w.get("calls", []) or
+                                   (POS in w.get("refs", []) and "E:celeritas::StepPoint::pre" in w.get("refs", [])
+                                    and all(c.endswith("operator[]") for c in w.get("calls", [])))
+                                   for (_b, _i, w) in ws)
+        moves = [(b, i, ev) for (b, i, ev) in f.calls(C + "axpy")
+                 if len(ev.get("args", [])) == 3 and TI in [path_leaf({"root": "", "chain": [x for x in (ev["args"][2].get("path") or {}).get("chain", []) if x != "&"]})]]
+        problems = []
+        if not ok_init:
+            problems.append("position is not initialised from the pre-step point")
+        if len(moves) != 1:
+            problems.append("%d displacement(s) of the position, expected one axpy(u, post - pre, &position)" % len(moves))
+        for (b, i, ev) in moves:
+            a0, a1 = ev["args"][0], ev["args"][1]
+            # scalar: canonical sample or literal 1
+            svars = local_refs(a0.get("refs", []))
+            good_u = bool(svars) or a0.get("lit") == "1"
+            for v in svars:
+                for (_b, _i, d) in f.reaching_defs(v, (b, i)):
+                    rhs = (d.get("rhs") or "")
+                    calls = set(d.get("calls", []))
+                    canon = all(c.startswith(C + "UniformRealDistribution::") for c in calls) and bool(calls)
+                    if not canon or re.search(r"[*/+-]", re.sub(r"UniformRealDist\{\}|->", "", rhs.split("?")[-1]).replace("::", "")):
+                        good_u = False
+                        problems.append("the fraction `%s = %s` is not a canonical sample / 1" % (v, rhs))
+            if not good_u and not problems:
+                problems.append("the fraction `%s` is not a canonical sample / 1" % a0.get("t"))
+            # vector: post - pre
+            p1 = a1.get("path") or {}
+            vec_ok = False
+            if p1.get("root") == "this" and len(p1.get("chain", [])) == 1:
+                mem = p1["chain"][0][2:]
+                wsm = []
+                for n_ in db.find("^" + re.escape(cls) + "::"):
+                    for g in db.get(n_):
+                        for (_b, _i, w) in g.events("write"):
+                            if path_leaf(w.get("path")) == mem:
+                                wsm.append(w)
+                def post_minus_pre(g, w):
+                    if POS not in w.get("refs", []) or set(w.get("calls", [])) != {C + "operator-"}:
+                        return False
+                    m_ = re.match(r"^\s*(\w+)\.pos\s*-\s*(\w+)\.pos\s*$", w.get("rhs", ""))
+                    if not m_:
+                        return False
+                    pt = {}
+                    for nm in (m_.group(1), m_.group(2)):
+                        for (_b2, _i2, d2) in g.events("def"):
+                            if d2.get("var") == nm:
+                                pt[nm] = [r.split("::")[-1] for r in d2.get("refs", []) if r.startswith("E:celeritas::StepPoint::")]
+                    return pt.get(m_.group(1)) == ["post"] and pt.get(m_.group(2)) == ["pre"]
+                wsm2 = []
+                for n_ in db.find("^" + re.escape(cls) + "::"):
+                    for g in db.get(n_):
+                        for (_b, _i, w) in g.events("write"):
+                            if path_leaf(w.get("path")) == mem:
+                                wsm2.append((g, w))
+                vec_ok = bool(wsm2) and all(post_minus_pre(g, w) for g, w in wsm2)
+                if not vec_ok:
+                    problems.append("the displacement vector `%s` is not post.pos - pre.pos (%s)"
+                                    % (a1.get("t"), [w.get("rhs") for w in wsm]))
+            else:
+                problems.append("cannot trace the displacement vector `%s`" % a1.get("t"))
+        cx.ob("C20.5-on-segment", "%s: position = pre + u * (post - pre) with u in [0, 1]"
+              % cls.split("::")[-1], not problems, "; ".join(problems), short(f.loc),
+              why="any other construction (e.g. distance along the unit chord direction with the true "
+                  "path length) places photons beyond the post-step point on curved steps")
